@@ -932,6 +932,45 @@ def run_rules(E, M, tables, tier="quick"):
         if not ok:
             add("R0-never-created", f"R0|never-created|{j['self']}", f"{j['self']} implements Work but no creation site is reachable from Workload::new / handle_success", j["impl"])
 
+    # ---------------- R10: a singleton job type is created at exactly one site and not in a loop
+    sites_by_type = defaultdict(list)
+    nb = P.bodies[WORKLOAD_NEW]
+    ncfg = CFG(nb)
+    ndefs = def_sites(nb)
+
+    def skip_exec(a, b):
+        return P.is_work_exec_impl(b)
+
+    addk = {"fontc::workload::{impl#0}::add", "fontc::workload::{impl#0}::add_skippable_feature_work"}
+    for site in P.iter_sites(WORKLOAD_NEW):
+        if site["kind"] != "call" or not (set(site["targets"]) & addk) or nb["blocks"][site["bi"]]["cl"]:
+            continue
+        t = site["term"]
+        l = operand_local(t["a"][1])
+        _, recs = backward_slice(nb, [l], ndefs)
+        in_loop = site["bi"] in {b for nx in ncfg.succ[site["bi"]] for b in ncfg.reachable_from(nx)}
+        for d in recs:
+            if d[0] != "call":
+                continue
+            k = d[3]["f"].get("k")
+            if not k:
+                continue
+            tgs, _ = P.resolve_targets(k)
+            for tg in tgs:
+                if tg in P.bodies and crate_of(tg) not in ("core", "alloc", "std"):
+                    for ty in unsize_work_types(P, P.reachable([tg], skip_exec)):
+                        sites_by_type[ty].append((site["line"], in_loop, crate_of(tg)))
+    for jk, j in M.jobs.items():
+        if any(E.variant_multi(*i) for i in j["ids"]):
+            continue
+        ss = [x for x in sites_by_type.get(j["self"], [])]
+        dyn = [d for d in M.dynamic if j["self"] in d["types"]]
+        ok = len({x[0] for x in ss}) + len(dyn) == 1 and not any(x[1] for x in ss)
+        obl.append({"rule": "R10", "inst": f"singleton job {j['self']} is created at exactly one site (lines {sorted({x[0] for x in ss})})", "ok": ok})
+        if not ok:
+            add("R10", f"R10|{j['self']}", f"singleton job {j['self']} is created at {len({x[0] for x in ss}) + len(dyn)} sites (Workload::new lines {sorted({x[0] for x in ss})}, in a loop: {any(x[1] for x in ss)}, dynamic: {len(dyn)}): the job count and the pending counter are inflated and the build ends in 'unable to proceed' / 'Multiple completions'",
+                loc(WORKLOAD_NEW, ss[0][0] if ss else 1))
+
     # ---------------- R1: write containment (variant level)
     for jk, j in M.jobs.items():
         wd = {i for (i, k) in j["wdecl"]["items"]}
@@ -1099,6 +1138,15 @@ def run_rules(E, M, tables, tier="quick"):
                 obl.append({"rule": "R6", "inst": f"[{fe}] {j['self']} writes foreign slot {sk[0]}.{sk[1]}", "ok": ok})
                 if not ok and ps:
                     add("R6", f"R6|{j['self']}|{fmt_id(sid)}", f"[{fe}] {j['self']} writes {sk[0]}.{sk[1]} whose id it neither owns nor also_completes, and its owner is not an ancestor", loc(ts[0]["fn"], ts[0]["line"]))
+        # ---- R10/R11 each id completes exactly once ('Multiple completions' / inflated counters -> 'unable to proceed')
+        for i, ps in sorted(G.producers.items()):
+            owners = [p for p in ps if i in G.jobs[p]["ids"]]
+            alsos = [p for p in ps if i in G.jobs[p]["also"]]
+            ok = len(owners) + len(alsos) == 1
+            obl.append({"rule": "R11", "inst": f"[{fe}] id {fmt_id(i)} is completed by exactly one job type ({[jname(G.jobs[p]) for p in ps]})", "ok": ok})
+            if not ok:
+                add("R11", f"R11|{fmt_id(i)}", f"[{fe}] id {fmt_id(i)} is completed by more than one job type (own id of {[jname(G.jobs[p]) for p in owners]}, also_completes of {[jname(G.jobs[p]) for p in alsos]}): the second completion panics with 'Multiple completions' or the inflated pending counter blocks dependents forever",
+                    G.jobs[sorted(ps)[0]]["impl"])
         # ---- R3 dynamic-job guard
         for d in M.dynamic:
             for ty in d["types"]:
